@@ -6,6 +6,7 @@ package main
 
 import (
 	"fmt"
+	"strings"
 
 	vu "golang.org/x/net/internal/verifutil"
 )
@@ -44,11 +45,74 @@ func genNames(r *vu.Rng) string {
 	return s
 }
 
+// genBSeq: a Builder call sequence - mostly in order, sometimes with calls out of order, repeated
+// or after Finish, sometimes with a failing record in the middle (the Builder is used further).
+func genBSeq(r *vu.Rng) string {
+	p := &namePool{}
+	fl := ""
+	for i := 0; i < 7; i++ {
+		fl += bit(r.Bool())
+	}
+	var ops []string
+	add := func(s string) { ops = append(ops, s) }
+	if r.Chance(2, 3) {
+		add("C")
+	}
+	chaos := r.Chance(1, 4)
+	illRec := r.Chance(1, 5)
+	rec := func(q bool) {
+		ill := illRec && r.Chance(1, 3)
+		if q {
+			add(fmt.Sprintf("Q %s %d %d", hexS(p.gen(r, ill)), typePool[r.Intn(len(typePool))], []int{1, 1, 255, 3}[r.Intn(4)]))
+		} else {
+			add("R " + genResource(r, p, ill))
+		}
+	}
+	for sec := 2; sec <= 5; sec++ {
+		if r.Chance(1, 6) {
+			continue // sections may be skipped
+		}
+		add(fmt.Sprintf("S%d", sec))
+		for k, n := 0, r.Intn(4); k < n; k++ {
+			rec(sec == 2)
+			if chaos && r.Chance(1, 4) {
+				switch r.Intn(5) {
+				case 0:
+					add(fmt.Sprintf("S%d", 2+r.Intn(4)))
+				case 1:
+					rec(sec != 2) // wrong kind for the section
+				case 2:
+					add("C") // resets the map in the middle
+				case 3:
+					add("F")
+				default:
+					add(fmt.Sprintf("S%d", sec))
+				}
+			}
+		}
+	}
+	if !chaos || r.Chance(3, 4) {
+		add("F")
+	}
+	if chaos && r.Bool() {
+		rec(r.Bool())
+		add("S3")
+		add("F")
+	}
+	if chaos && r.Chance(1, 4) { // calls before any Start
+		ops = append([]string{"R " + genResource(r, p, false), "Q " + hexS("a.") + " 1 1"}, ops...)
+	}
+	op, rc := r.Intn(16), r.Intn(16)
+	return fmt.Sprintf("bseq %d %d %s %d %d %d %s", r.Intn(5), genU16(r), fl, op, rc, len(ops), strings.Join(ops, " "))
+}
+
 func gen(r *vu.Rng, i int) []string {
 	switch k := r.Intn(100); {
 	case k < 25:
 		return []string{genNames(r)}
-	case k < 28:
+	case k < 45:
+		return []string{genBSeq(r)}
+	case k < 48:
 		m := genChainMessage(r, r.Range(9, 14))
 		return []string{"rt " + m, "build 1 " + fmt.Sprint(r.Intn(5)) + " " + m, "build 0 0 " + m}
 	default:
